@@ -103,7 +103,7 @@ var props = []*core.Property{
 		technique:  "finite-domain tabulation through constant tables; control-dependence rules",
 		expl:       "decides the decision structure of the plain sniffer for every byte string",
 		notCovered: []string{"truthfulness for every byte string as a whole (utf8.Valid semantics are trusted)"},
-		rules:      []*core.Rule{ruleBOMTable, rulePlainReturns, ruleASCIIClass, ruleTrim, ruleLatin, ruleSnifferMap, ruleRuneError}}),
+		rules:      []*core.Rule{ruleBOMTable, rulePlainReturns, ruleASCIIClass, ruleTrim, ruleLatin, ruleSnifferMap, ruleRuneError, ruleLabelPaths}}),
 	mk(pd{id: "C12", level: "other",
 		levelText:  "Sniffer map roles; the XML decoder has a usable CharsetReader before the first token; every returned label is lower-cased (XML: strings.ToLower; HTML: in-place ASCII lower-casing tabulated over 256 bytes, before any use); BOM dominates the meta prescan; utf-16* -> utf-8; pragma decision table over the prescan state equals WHATWG, per-tag state is reset; the pragma value scanner tests for an opening quote after skipping the blanks behind the equals sign.",
 		technique:  "typestate (field store before first token call); finite-domain tabulation; dominance rules",
